@@ -219,16 +219,57 @@ func genAttrs(rng *chain.Rng, e *env.BridgeEnv) []c16Attr {
 	case 0: // one of the five is missing
 		i := rng.Intn(5)
 		as = append(as[:i], as[i+1:]...)
-	case 1: // one is missing, another one duplicated (the attribute count still reaches five)
-		i, j := rng.Intn(5), rng.Intn(5)
-		if i != j {
-			dup := as[j]
-			if rng.Intn(2) == 0 {
-				dup.V = base[j].V
+	case 1: // one or two are missing, others repeated — with the same or with other values — so that the attribute count (and the number of distinct values) still reaches five
+		other := func(d c16Attr) c16Attr {
+			switch d.K {
+			case "amount", "cosmos_sender_sequence":
+				d.V = fmt.Sprint(1 + rng.Intn(100000))
+			case "symbol":
+				d.V = c16Symbols[rng.Intn(len(c16Symbols))]
+			case "cosmos_sender":
+				d.V = e.Users[rng.Intn(len(e.Users))].Addr.String()
+				if rng.Intn(2) == 0 {
+					d.V = chain.NewAccount(fmt.Sprintf("c16sender%d", rng.Intn(1000))).Addr.String()
+				}
+			case "ethereum_receiver":
+				d.V = ethAddrs[rng.Intn(len(ethAddrs))]
 			}
-			as = append(as[:i], as[i+1:]...)
-			as = append(as, dup)
+			return d
 		}
+		nMiss := 1 + rng.Intn(2)
+		var miss []int
+		for len(miss) < nMiss {
+			i := rng.Intn(5)
+			if len(miss) == 0 || miss[0] != i {
+				miss = append(miss, i)
+			}
+		}
+		isMiss := func(i int) bool { return i == miss[0] || (len(miss) > 1 && i == miss[1]) }
+		var kept []c16Attr
+		for i, a := range as {
+			if i < 5 && isMiss(i) {
+				continue
+			}
+			kept = append(kept, a)
+		}
+		j := rng.Intn(5)
+		for isMiss(j) {
+			j = rng.Intn(5)
+		}
+		for k := 0; k < nMiss; k++ {
+			d := base[j]
+			if rng.Intn(4) != 0 {
+				d = other(d)
+			}
+			kept = append(kept, d)
+			if rng.Intn(3) == 0 { // repeat another kept attribute next time
+				j2 := rng.Intn(5)
+				if !isMiss(j2) {
+					j = j2
+				}
+			}
+		}
+		as = kept
 	case 2: // a duplicated attribute with another value
 		j := rng.Intn(5)
 		d := base[j]
@@ -237,6 +278,10 @@ func genAttrs(rng *chain.Rng, e *env.BridgeEnv) []c16Attr {
 			d.V = fmt.Sprint(rng.Intn(100000))
 		case "symbol":
 			d.V = c16Symbols[rng.Intn(len(c16Symbols))]
+		case "cosmos_sender":
+			d.V = e.Users[rng.Intn(len(e.Users))].Addr.String()
+		case "ethereum_receiver":
+			d.V = ethAddrs[rng.Intn(len(ethAddrs))]
 		}
 		as = append(as, d)
 	case 3: // an invalid value
